@@ -1,68 +1,108 @@
-"""Process-global state of the library (tables and class-level defaults that
-every user in the process shares): observed after every run and restored, so
-that one run can never influence the next (execute stays a pure function of
-the scenario) and a run that mutates them is reported where it happened."""
+"""Process-global state of the library (module-level tables, class-level
+defaults and caches that every user in the process shares): observed after
+every run and restored, so that one run can never influence the next
+(execute stays a pure function of the scenario) and a run that mutates them
+is reported where it happened.
+
+The guard walks every loaded pydiffx module (tests excluded): module globals
+and class attributes whose value is a dict / list / set / bytearray.  New
+such attributes that appear later (a lazily created cache) are picked up on
+the next check and treated as "was empty"."""
 
 import copy
+import sys
+import types
+
+MUTABLE = (dict, list, set, bytearray)
+TABLES = ('VALID_SECTION_STATES', 'CONTENT_SECTIONS', 'META_SECTIONS',
+          'PREAMBLE_SECTIONS')
 
 
-def _targets(L):
-    t = []
-    o = L.dom_objects
+def _walk():
+    """Yields (name, container object) for the live shared containers."""
+    for mname in sorted(sys.modules):
+        if not (mname == 'pydiffx' or mname.startswith('pydiffx.')) or \
+           '.tests' in mname:
+            continue
 
-    for cname in ('DiffX', 'DiffXChangeSection', 'DiffXFileSection',
-                  'DiffXPreambleSection', 'DiffXMetaSection',
-                  'DiffXFileDiffSection'):
-        cls = getattr(o, cname, None)
+        mod = sys.modules.get(mname)
 
-        for attr in ('default_options', 'default_value'):
-            if cls is not None and isinstance(getattr(cls, attr, None),
-                                              (dict, list, set)):
-                t.append(('%s.%s' % (cname, attr), getattr(cls, attr)))
+        if mod is None:
+            continue
 
-    for obj, attr in ((L.dom_writer.DiffXDOMWriter, '_remapped_options'),
-                      (L.sections, 'VALID_SECTION_STATES'),
-                      (L.sections, 'CONTENT_SECTIONS'),
-                      (L.sections, 'META_SECTIONS'),
-                      (L.sections, 'PREAMBLE_SECTIONS'),
-                      (L.text, 'NEWLINE_FORMATS'), (L.text, 'BOMS')):
-        v = getattr(obj, attr, None)
+        for attr in sorted(vars(mod)):
+            if attr.startswith('__'):
+                continue
 
-        if isinstance(v, (dict, list, set)):
-            t.append((attr, v))
+            v = vars(mod)[attr]
 
-    for cname in ('DiffType', 'LineEndings', 'MetaFormat', 'PreambleMimeType',
-                  'SpecVersion'):
-        cls = getattr(L.options, cname, None)
-        v = getattr(cls, 'VALID_VALUES', None)
+            if isinstance(v, MUTABLE):
+                yield '%s.%s' % (mname, attr), v
+            elif isinstance(v, type) and getattr(v, '__module__', None) == \
+                    mname:
+                for cattr in sorted(vars(v)):
+                    if cattr.startswith('__'):
+                        continue
 
-        if isinstance(v, (dict, list, set)):
-            t.append(('%s.VALID_VALUES' % cname, v))
+                    cv = vars(v)[cattr]
 
-    return t
+                    if isinstance(cv, MUTABLE):
+                        yield '%s.%s.%s' % (mname, v.__name__, cattr), cv
+
+
+def _safe_copy(v):
+    try:
+        return copy.deepcopy(v)
+    except Exception:
+        return None
+
+
+def _restore(live, saved):
+    fresh = copy.deepcopy(saved)
+
+    if isinstance(live, (dict, set)):
+        live.clear()
+        live.update(fresh)
+    elif isinstance(live, (list, bytearray)):
+        live[:] = fresh
 
 
 class Guard(object):
     def __init__(self, L):
-        self.targets = _targets(L)
-        self.saved = [(n, copy.deepcopy(v)) for n, v in self.targets]
+        self.saved = {}
+        self.ids = {}
+
+        for name, v in _walk():
+            c = _safe_copy(v)
+
+            if c is not None:
+                self.saved[name] = c
+                self.ids[name] = id(v)
 
     def check_and_restore(self):
-        """Names of the objects a run changed (restored in place)."""
+        """Short names of the containers a run changed (restored in place)."""
         changed = []
 
-        for (name, live), (_, saved) in zip(self.targets, self.saved):
-            if live != saved:
-                changed.append(name)
-                fresh = copy.deepcopy(saved)
+        for name, live in _walk():
+            if name not in self.saved:
+                # appeared after start-up (lazily created): its start-up
+                # value is "empty"
+                self.saved[name] = type(live)()
 
-                if isinstance(live, dict):
-                    live.clear()
-                    live.update(fresh)
-                elif isinstance(live, set):
-                    live.clear()
-                    live.update(fresh)
-                elif isinstance(live, list):
-                    live[:] = fresh
+            saved = self.saved[name]
+
+            try:
+                same = live == saved
+            except Exception:
+                same = True
+
+            if not same:
+                changed.append(name.rsplit('.', 1)[-1] if
+                               name.rsplit('.', 1)[-1] in TABLES else name)
+
+                try:
+                    _restore(live, saved)
+                except Exception:
+                    pass
 
         return changed
